@@ -2,8 +2,9 @@
 """Self-test data for Regex.tla: random small syntax trees rendered by this script the way Regex!Render
 does, with Python's re (a leftmost-first backtracking matcher) as the independent oracle."""
 import json, random, re, sys
+OUT = sys.argv[2] if len(sys.argv) > 2 else '/verif/spec/selftest/regex_cases.ndjson'
 random.seed(20260924)
-ALPHA = [97, 98, 99, 45, 49]          # a b c - 1
+ALPHA = [97, 98, 99, 45, 49, 65, 66]   # a b c - 1 A B
 SPECIAL = {40, 41, 42, 43, 46, 63, 91, 92, 93, 94, 36, 123, 124, 125, 45}
 def gen(d, groups):
     k = random.random()
@@ -58,6 +59,10 @@ while len(out) < n:
     empty = any(m.start() == m.end() for m in cre.finditer(s)) or cre.fullmatch('') is not None
     rep = random.choice(["", "x", "[$1]", "$1$1", "<\\$>", "$2-"])
     rec = {"ast": ast, "pat": render(ast), "s": [ord(c) for c in s], "matches": cre.search(s) is not None, "empty": empty, "ngroups": g[0]}
+    crei = re.compile(pat, re.I)
+    rec["matches_i"] = crei.search(s) is not None
+    if not any(m.start() == m.end() for m in crei.finditer(s)) and crei.fullmatch('') is None:
+        rec["replaced_i"] = [ord(c) for c in crei.sub('x', s)]
     if not empty:
         ok = True
         # the replacement refers to existing groups only
@@ -73,6 +78,6 @@ while len(out) < n:
         pieces.append(s[last:])
         rec["pieces"] = [[ord(c) for c in p] for p in pieces]
     out.append(rec)
-with open('/verif/spec/selftest/regex_cases.ndjson', 'w') as f:
+with open(OUT, 'w') as f:
     for r in out: f.write(json.dumps(r) + '\n')
 print(len(out), 'cases', sum(1 for r in out if 'replaced' in r), 'with replace', sum(1 for r in out if r['matches']), 'matching')
